@@ -68,7 +68,7 @@ pub fn check(case: &Case, ctx: &mut CaseCtx) -> CaseResult {
     let mut nontrivial = false;
     let mut parts: Vec<&[u8]> = vec![];
     for (i, (input, f)) in results.iter().enumerate() {
-        let j = &case.jobs[i];
+        let j = &case.jobs[i.min(case.jobs.len() - 1)];
         let what = format!("frame #{i} ({}, {} bytes, level {})", j.data.kind_name(), input.len(), if j.level % 2 == 0 { "Uncompressed" } else { "Fastest" });
         if check_structure(input, f, j.level % 2 == 1, &what, ctx)? {
             nontrivial = true;
@@ -136,8 +136,8 @@ fn case_strategy(tier: Tier) -> impl Strategy<Value = Case> {
     });
     prop_oneof![
         3 => c02::case_strategy(tier),
-        2 => hard.prop_map(|j| Case { jobs: vec![j], oneshot: true }),
-        1 => prop::collection::vec(c02::job_strategy(300_000), 2..=4).prop_map(|jobs| Case { jobs, oneshot: false }),
+        2 => hard.prop_map(|j| Case { jobs: vec![j], oneshot: true, stream_cuts: vec![] }),
+        1 => prop::collection::vec(c02::job_strategy(300_000), 2..=4).prop_map(|jobs| Case { jobs, oneshot: false, stream_cuts: vec![] }),
     ]
 }
 
